@@ -167,7 +167,9 @@ func (c *SubscriptionManager) RemoveSubscriptionsForEntity(remoteEntity api.Enti
 
 	var newSubscriptionEntries []*api.SubscriptionEntry
 	for _, item := range c.subscriptionEntries {
-		if !reflect.DeepEqual(item.ClientFeature.Address().Device, remoteEntity.Address().Device) ||
+		// the same entity address can exist on several remote devices, and the
+		// device address is not known before the detailed discovery data was received
+		if item.ClientFeature.Device().Ski() != remoteEntity.Device().Ski() ||
 			!reflect.DeepEqual(item.ClientFeature.Address().Entity, remoteEntity.Address().Entity) {
 			newSubscriptionEntries = append(newSubscriptionEntries, item)
 			continue
